@@ -509,7 +509,11 @@ def months_inc(start_date, months, eomonth=False):
         return NUM_ERROR
     y, m, d = date_from_int(start_date)
     if eomonth:
-        return date(y, m + months + 1, 1) - 1
+        first = date(y, m + months, 1)
+        if first in ERROR_CODES:
+            return first
+        y, m, d = date_from_int(first)
+        return first + max_days_in_month(m, y) - 1
     else:
         return date(y, m + months, d)
 
